@@ -239,4 +239,41 @@ def p_ret_ordered_positions(pr, prog, cg, body, R):
     return n > 0, "%s returns Some((a, b)) only with 0 <= a < b < len(argument) (%d paths)" % (pr["fn"].split("::")[-1], n)
 
 
-PREMISES = {"ret_ordered_positions": p_ret_ordered_positions, "callers": p_callers, "ctor_only": p_ctor_only, "ctor_consts": p_ctor_consts, "returns_variant": p_returns_variant}
+def p_ret_position_offset(pr, prog, cg, body, R):
+    """{"fn", "offset"}: every `Some(v)` fn returns is (a position of an `enumerate()` over its first parameter) + offset."""
+    import inline, iters, fdeval
+    from sym import mentions
+    f = prog.one(pr["fn"])
+    if f is None:
+        return False, "function %s not found" % pr["fn"]
+    par = ("param", 1, f.locals[1].get("name") or "")
+    n = 0
+    for p in Walker(f, max_visits=3, max_paths=100000, inline=inline.helpers(prog)).paths():
+        if p.end != "return":
+            continue
+        r = strip(p.ret)
+        if not (r[0] == "agg" and r[2] == "Some"):
+            continue
+        n += 1
+        v = fdeval.uncast(dict(r[3]).get("0"))
+        off = 0
+        while isinstance(v, tuple) and v and v[0] in ("binop", "field"):
+            if v[0] == "field" and v[2] == "0" and strip(v[1])[0] == "binop" and "WithOverflow" in strip(v[1])[1]:
+                v = strip(v[1])
+                continue
+            if v[0] != "binop":
+                break
+            k = strip(v[3])
+            if not (k[0] == "const" and isinstance(k[3], int)) or not any(v[1].startswith(x) for x in ("Sub", "Add")):
+                break
+            off += -k[3] if v[1].startswith("Sub") else k[3]
+            v = fdeval.uncast(v[2])
+        res = iters.resolve(v)
+        if not (res is not None and res[0] == "idx" and mentions(res[1], lambda x: x == par)):
+            return False, "%s can return Some(%s), which is not a position of its argument" % (pr["fn"].split("::")[-1], str(v)[:40])
+        if res[2] + off != pr["offset"]:
+            return False, "%s returns position %+d, the review assumed position %+d" % (pr["fn"].split("::")[-1], res[2] + off, pr["offset"])
+    return n > 0, "%s returns Some(position %+d) only (%d paths)" % (pr["fn"].split("::")[-1], pr["offset"], n)
+
+
+PREMISES = {"ret_position_offset": p_ret_position_offset, "ret_ordered_positions": p_ret_ordered_positions, "callers": p_callers, "ctor_only": p_ctor_only, "ctor_consts": p_ctor_consts, "returns_variant": p_returns_variant}
